@@ -410,4 +410,7 @@ def obligations(tier):
         for only in (True, False):
             for A, B in ((["a", "b"], ["a", "b"]), (["a", "b"], ["b", "a"]), (["a", "b"], ["b", "c"]), (["a", "b"], ["c", "d"]), (["a"], ["a"]), ([], ["a"]), (["a"], [])):
                 obs.append(ob_append_tg(A, B, only, 900))
+    from harness import fp_kernels
+
+    obs += fp_kernels.c09_obligations(tier)
     return obs
